@@ -227,6 +227,65 @@ def precomp_ok(ring, p, op):
     return p.bit_length() <= lim
 
 
+PRECOMP_OPS = ("mulpp", "mulpb", "mulpb2")
+
+
+def precomp_grid(rng, ring, p, op, cases, full):
+    """operands near p-1 (the Barrett quotient estimate is worst for large products with a small residue)"""
+    near = [x for x in range(p - 1, p - 7, -1) if x >= 0]
+    if full:
+        pairs = [(x, y) for x in near for y in near]
+    else:
+        pairs = [(x, x) for x in near] + [(near[0], y) for y in near[1:]] + [(near[-1], near[1 % len(near)])]
+    pairs += [(p // 2, p - 1), (p - 1, p // 2 + 1), (rng.range(0, p - 1), rng.range(0, p - 1)), (rng.range(p // 2, p - 1), p - 1)]
+    for x, y in pairs:
+        cases.append((ring, p, op, [x, y]))
+
+
+def gen_precomp_directed(rng, ring, lo, hi, quick, cases):
+    """mul_precomp_p / precomp_b+mul_precomp_b / precomp_b(invp)+mul_precomp_b at moduli 2^(k-1)+small and 2^k-small for every
+    bit size k up to the documented limit of the (Element, Compute_t) pair (quick: the top bit sizes, where the margin of the
+    quotient estimate is smallest, plus two lower ones), operands within 6 of p-1."""
+    cb = ITY[ring.split("_")[1]][0]
+    for op in PRECOMP_OPS:
+        lim = cb // 2 - 2 if op in ("mulpp", "mulpb2") else cb // 2 - 1
+        kmax = min(lim, hi.bit_length())
+        if kmax < 3:
+            continue
+        ks = list(range(3, kmax + 1))
+        if quick and len(ks) > 6:
+            ks = ks[-4:] + [rng.choice(ks[:-4]), rng.choice(ks[:-4])]
+        for k in ks:
+            base = 1 << (k - 1)
+            ds = [1, 2, 3, 4, 5, 7, 9] + [rng.range(1, max(1, base // 8)) for _ in range(6 if quick else 16)] \
+                + [rng.range(1, max(1, base // 64)) for _ in range(3 if quick else 8)]
+            ms = {base + d for d in ds} | {2 * base - d for d in (1, 2, 3, rng.range(1, max(1, base // 4)))}
+            for m in sorted(ms):
+                if lo <= m <= hi and m >= 3 and m.bit_length() <= lim:
+                    precomp_grid(rng, ring, m, op, cases, full=(op == "mulpp"))
+
+
+def gen_precomp_16bit(rng, ring, lo, hi, quick, cases, n):
+    """the 16-bit element space is small: n moduli (thorough: ALL) inside the precondition with the near-(p-1) grid"""
+    lim = ITY[ring.split("_")[1]][0] // 2 - 2
+    top = min(hi, (1 << lim) - 1)
+    if top < 8:
+        return
+    if n is None:
+        ms = range(max(lo, 3), top + 1)
+    else:
+        ms = set()
+        while len(ms) < n:
+            k = rng.range(max(4, lim - 3), lim)
+            b = 1 << (k - 1)
+            m = b + rng.range(1, b // 3) if rng.chance(3, 4) else rng.range(b, 2 * b - 1)
+            if max(lo, 3) <= m <= top:
+                ms.add(m)
+        ms = sorted(ms)
+    for m in ms:
+        precomp_grid(rng, ring, m, "mulpp", cases, full=True)
+
+
 def gen_cases(rng, ring, p, per, cases):
     for op in OPS2:
         for _ in range(per):
@@ -440,6 +499,10 @@ def main(tier, replay=None):
                 ms = sorted({prevprime(m) for m in ms if m >= 2} | {2, 3, 5, 7, prevprime(hi)})
             for p in ms:
                 gen_cases(rng, ring, p, per, cases)
+        for ring in INT_RINGS:
+            gen_precomp_directed(rng, ring, info[ring][0], info[ring][1], quick, cases)
+        for ring, n in (("u16_u32", 160), ("i16_i32", 60), ("u16_i32", 40), ("i16_u32", 40)):
+            gen_precomp_16bit(rng, ring, info[ring][0], info[ring][1], quick, cases, n if quick else (None if ring in ("u16_u32", "i16_i32") else 600))
         # gcdext<Element> on its own (shared by the word rings)
         for ring in ("i8_i8", "u8_u8", "i16_i16", "u16_u16", "i32_i32", "u32_u32", "i64_i64", "u64_u64"):
             b, s = ITY[ring.split("_")[0]]
